@@ -375,6 +375,8 @@ impl OutstationSession {
         loop {
             if let Err(err) = self.run_idle_state(io, reader, writer, database).await {
                 self.state.reset();
+                // events of a fragment that was still awaiting its confirm go back to the pool
+                database.reset();
                 return err;
             }
         }
